@@ -1,3 +1,277 @@
-import ElfioVerif.Model.Load
+/-
+C17 — a truncated file never yields wrong data.
+
+`pre := img.take k` is the prefix of length `k` of the complete image `img` (any bytes: nothing
+below needs the image to be well-formed, so the statements also cover truncated malformed files).
+No address translation (`tr = []`).
+
+  read_prefix / isolatedRead_prefix   a read on the prefix that is complete delivers the bytes
+                                      the same read delivers on the complete image
+  secLoad_prefix                      a section loaded from the prefix has the zeroed header
+                                      (short read: the F8 fix) or exactly the header fields
+                                      that the complete image holds in that table slot; its
+                                      data is absent or the bytes of the complete image
+  segLoad_prefix                      a segment's data is absent or the bytes of the image
+  exposes_only_file_bytes             whatever data a load of the prefix exposes lies inside
+                                      the prefix and equals the complete image there
+  prefix_load_safe                    memory safety: C01 instantiated
+  (two-run ladder: see the end of the file)
+-/
+import ElfioVerif.Props.C01
 namespace ElfioVerif.C17
+open ElfioVerif Gen
+
+/-- the same stream state over the complete image -/
+def onFull (s : IStream) (img : Bytes) : IStream := { s with data := img }
+
+theorem take_length_le (img : Bytes) (k : Nat) : (img.take k).length ≤ k ∧ (img.take k).length ≤ img.length := by
+  rw [List.length_take]; omega
+
+/-- If a `read n` on (a stream over) the prefix delivers `gcount = n`, the same read on the
+    complete image delivers the same bytes and leaves the stream in the same state; the bytes are
+    the image's bytes at the read position and the range lies inside the prefix. -/
+theorem read_prefix (img : Bytes) (k : Nat) (s : IStream) (n : Nat) (hs : s.data = img.take k)
+    (hn : 0 < n) (h : (s.read n).1.gcount = n) :
+    ((onFull s img).read n).2 = (s.read n).2 ∧ ((onFull s img).read n).1 = onFull (s.read n).1 img ∧
+    (s.read n).2 = slice img s.pos n ∧ s.pos + n ≤ k := by
+  have hg := IStream.good_of_gcount s n (by rw [h]; omega)
+  obtain ⟨hgot, hle⟩ := IStream.read_full s n h hn
+  have hl := take_length_le img k
+  rw [hs] at hle
+  have hgf : (onFull s img).good = true := hg
+  rw [IStream.read_ok s n hg (by rw [hs]; exact hle),
+    IStream.read_ok (onFull s img) n hgf (by simp only [onFull]; omega)]
+  simp only [onFull, hs]
+  refine ⟨?_, ?_, ?_, by omega⟩
+  · exact (slice_take (by omega)).symm
+  · first | rfl | trivial
+  · exact slice_take (by omega)
+
+/-- the same for the `clear(); seekg(off); read(n)` sequence of `load_data` -/
+theorem isolatedRead_prefix (img : Bytes) (k : Nat) (s : IStream) (off n : BitVec 64)
+    (hs : s.data = img.take k) (hn : n ≠ 0) (h : (isolatedRead s off n).2.2 = true) :
+    (isolatedRead (onFull s img) off n).2.2 = true ∧
+    (isolatedRead (onFull s img) off n).2.1 = (isolatedRead s off n).2.1 ∧
+    (isolatedRead s off n).2.1 = slice img off.toNat n.toNat ∧ off.toNat + n.toNat ≤ k := by
+  obtain ⟨hgot, hlen⟩ := isolatedRead_complete s off n h hn
+  obtain ⟨h0, h1⟩ := isolatedRead_complete_nonneg s off n h hn
+  have hl := take_length_le img k
+  rw [hs] at hgot hlen
+  rw [slice_length] at hlen
+  have hn' : 0 < n.toNat := by
+    rcases Nat.eq_zero_or_pos n.toNat with h0 | h0
+    · exact absurd (BitVec.eq_of_toNat_eq (by simpa using h0)) hn
+    · exact h0
+  have hr : off.toNat + n.toNat ≤ (img.take k).length := by omega
+  obtain ⟨f1, f2, -, -⟩ := isolatedRead_inrange (onFull s img) off n h0 h1 (by simp only [onFull]; omega)
+  refine ⟨f2, ?_, ?_, by omega⟩
+  · rw [f1, hgot]; simp only [onFull]; exact (slice_take (by omega)).symm
+  · rw [hgot]; exact slice_take (by omega)
+
+/-! ### one section / segment loaded from the prefix -/
+
+/-- the ten ELF section header fields -/
+structure SameFields (b' b : SecBuf) : Prop where
+  stype : b'.stype = b.stype
+  size : b'.size = b.size
+  offset : b'.offset = b.offset
+  nameOff : b'.nameOff = b.nameOff
+  flags : b'.flags = b.flags
+  addr : b'.addr = b.addr
+  link : b'.link = b.link
+  info : b'.info = b.info
+  addrAlign : b'.addrAlign = b.addrAlign
+  entSize : b'.entSize = b.entSize
+
+theorem _root_.ElfioVerif.SameHdr.fields {b' b : SecBuf} (h : SameHdr b' b) : SameFields b' b :=
+  ⟨h.stype, h.size, h.offset, h.nameOff, h.flags, h.addr, h.link, h.info, h.addrAlign, h.entSize⟩
+
+theorem SameFields.trans {a b c : SecBuf} (h1 : SameFields a b) (h2 : SameFields b c) : SameFields a c :=
+  ⟨h1.stype.trans h2.stype, h1.size.trans h2.size, h1.offset.trans h2.offset, h1.nameOff.trans h2.nameOff,
+   h1.flags.trans h2.flags, h1.addr.trans h2.addr, h1.link.trans h2.link, h1.info.trans h2.info,
+   h1.addrAlign.trans h2.addrAlign, h1.entSize.trans h2.entSize⟩
+
+/-- the all-zero section header without data ("absent") -/
+structure SecZero (b : SecBuf) : Prop where
+  stype : b.stype = 0
+  size : b.size = 0
+  offset : b.offset = 0
+  nameOff : b.nameOff = 0
+  flags : b.flags = 0
+  addr : b.addr = 0
+  link : b.link = 0
+  info : b.info = 0
+  addrAlign : b.addrAlign = 0
+  entSize : b.entSize = 0
+  data : b.data = none
+
+/-- the header fields the complete image holds in the table slot at `hdrOff` -/
+def trueShdr (c : Cls) (enc : Enc) (img : Bytes) (hdrOff : Int) : SecBuf :=
+  decodeShdr c enc (slice img hdrOff.toNat (shdrSize c)) (secB0 c [] 0 false 0)
+
+theorem decodeShdr_fields (c : Cls) (enc : Enc) (r : Bytes) (b b' : SecBuf) :
+    SameFields (decodeShdr c enc r b) (decodeShdr c enc r b') := by
+  cases c <;> constructor <;> rfl
+
+/-- Loading a section from the prefix yields either the zeroed header without data (the header
+    read came up short) or exactly the header fields of the complete image's table slot (which
+    then lies inside the prefix). -/
+theorem secLoad_prefix_hdr (c : Cls) (enc : Enc) (img : Bytes) (k : Nat) (ls : LoadSt) (hdrOff : Int)
+    (isLazy : Bool) (idx : Nat) (hs : ls.st.data = img.take k) :
+    SecZero (secLoad c enc [] ls hdrOff isLazy idx).2 ∨
+    (0 ≤ hdrOff ∧ hdrOff.toNat + shdrSize c ≤ k ∧
+      SameFields (secLoad c enc [] ls hdrOff isLazy idx).2 (trueShdr c enc img hdrOff)) := by
+  rw [secLoad_eq]
+  split
+  · left; constructor <;> rfl
+  · rename_i hg
+    right
+    have hgc : (hdrRead [] ls.st hdrOff (shdrSize c)).1.gcount = shdrSize c := by simpa using hg
+    obtain ⟨h0, hgot, hle, -, -⟩ := hdrRead_full ls.st hdrOff (shdrSize c)
+      (Nat.pos_of_ne_zero (shdrSize_ne_zero c)) hgc
+    have hl := take_length_le img k
+    rw [hs] at hgot hle
+    rw [slice_take (by omega)] at hgot
+    refine ⟨h0, by omega, ?_⟩
+    have hf : SameFields (secHdrOnly c enc [] (hdrRead [] ls.st hdrOff (shdrSize c)).1
+        (hdrRead [] ls.st hdrOff (shdrSize c)).2 (streamSizeOf [] ls.st).2 isLazy idx)
+        (trueShdr c enc img hdrOff) := by
+      unfold trueShdr
+      rw [← hgot]
+      exact SameFields.trans (by constructor <;> rfl) (decodeShdr_fields c enc _ _ _)
+    split
+    · exact SameFields.trans (by constructor <;> rfl)
+        (SameFields.trans (secGetData_sameHdr c [] _ _).fields hf)
+    · exact SameFields.trans (by constructor <;> rfl) hf
+
+theorem toNat_pos_of_ne_zero {x : BitVec 64} (h : x ≠ 0) : 0 < x.toNat := by
+  rcases Nat.eq_zero_or_pos x.toNat with h0 | h0
+  · exact absurd (BitVec.eq_of_toNat_eq (by simpa using h0)) h
+  · exact h0
+
+theorem slice_take_of_full {img : Bytes} {k off n : Nat} (h : (slice (img.take k) off n).length = n) :
+    slice (img.take k) off n = slice img off n ∧ (slice img off n).length = n ∧ (n ≠ 0 → off + n ≤ k) := by
+  have hl := take_length_le img k
+  rw [slice_length] at h
+  by_cases hn : n = 0
+  · subst hn; simp [slice]
+  · have : off + n ≤ k := by omega
+    refine ⟨slice_take this, ?_, fun _ => this⟩
+    rw [slice_length]; omega
+
+/-- a resident buffer of a section loaded from the prefix holds exactly the bytes of the
+    COMPLETE image in the section's range (plus the terminator), and a non-empty range lies
+    inside the prefix -/
+theorem LoadedSec.prefix_exact {img : Bytes} {k : Nat} {b : SecBuf} (h : LoadedSec [] b (img.take k))
+    {d : Bytes} (hd : b.data = some d) :
+    d = slice img b.offset.toNat b.size.toNat ++ [0] ∧
+    (slice img b.offset.toNat b.size.toNat).length = b.size.toNat ∧
+    (b.size ≠ 0 → b.offset.toNat + b.size.toNat ≤ k) := by
+  obtain ⟨h1, h2⟩ := h.exact d hd
+  simp only [dataOff_nil] at h1 h2
+  obtain ⟨e1, e2, e3⟩ := slice_take_of_full h2
+  refine ⟨by rw [h1, e1], e2, fun hz => e3 (by have := toNat_pos_of_ne_zero hz; omega)⟩
+
+theorem LoadedSeg.prefix_exact {img : Bytes} {k : Nat} {g : Seg} (h : LoadedSeg [] g (img.take k))
+    {d : Bytes} (hd : g.data = some d) :
+    d = slice img g.offset.toNat g.filesz.toNat ++ [0] ∧
+    (slice img g.offset.toNat g.filesz.toNat).length = g.filesz.toNat ∧
+    (g.filesz ≠ 0 → g.offset.toNat + g.filesz.toNat ≤ k) := by
+  obtain ⟨h1, h2⟩ := h.exact d hd
+  simp only [dataOff_nil] at h1 h2
+  obtain ⟨e1, e2, e3⟩ := slice_take_of_full h2
+  refine ⟨by rw [h1, e1], e2, fun hz => e3 (by have := toNat_pos_of_ne_zero hz; omega)⟩
+
+/-- **secLoad_prefix**: loading section `idx` from the prefix yields either the zero header
+    (short read; the F8 fix) or exactly the header fields of the complete image; its data is
+    `none`, or exactly the bytes the complete image has in the section's range. -/
+theorem secLoad_prefix (c : Cls) (enc : Enc) (img : Bytes) (k : Nat) (st : IStream) (hdrOff : Int)
+    (isLazy : Bool) (idx : Nat) (hs : st.data = img.take k) :
+    (SecZero (secLoad c enc [] { st := st } hdrOff isLazy idx).2 ∨
+      (0 ≤ hdrOff ∧ hdrOff.toNat + shdrSize c ≤ k ∧
+        SameFields (secLoad c enc [] { st := st } hdrOff isLazy idx).2 (trueShdr c enc img hdrOff))) ∧
+    ∀ d, (secLoad c enc [] { st := st } hdrOff isLazy idx).2.data = some d →
+      d = slice img (secLoad c enc [] { st := st } hdrOff isLazy idx).2.offset.toNat
+            (secLoad c enc [] { st := st } hdrOff isLazy idx).2.size.toNat ++ [0] ∧
+      ((secLoad c enc [] { st := st } hdrOff isLazy idx).2.size ≠ 0 →
+        (secLoad c enc [] { st := st } hdrOff isLazy idx).2.offset.toNat +
+          (secLoad c enc [] { st := st } hdrOff isLazy idx).2.size.toNat ≤ k) := by
+  refine ⟨secLoad_prefix_hdr c enc img k { st := st } hdrOff isLazy idx hs, ?_⟩
+  intro d hd
+  have hinv := C01.secLoad_inv c enc [] st hdrOff isLazy idx
+  rw [hs] at hinv
+  obtain ⟨h1, -, h3⟩ := LoadedSec.prefix_exact hinv hd
+  exact ⟨h1, h3⟩
+
+/-- a segment loaded from the prefix: its data is `none` or exactly the bytes of the complete
+    image in the segment's file range -/
+theorem segLoad_prefix (c : Cls) (enc : Enc) (img : Bytes) (k : Nat) (st : IStream) (hdrOff : Int)
+    (isLazy : Bool) (hs : st.data = img.take k) :
+    ∀ d, (segLoad c enc [] { st := st } hdrOff isLazy).2.1.data = some d →
+      d = slice img (segLoad c enc [] { st := st } hdrOff isLazy).2.1.offset.toNat
+            (segLoad c enc [] { st := st } hdrOff isLazy).2.1.filesz.toNat ++ [0] ∧
+      ((segLoad c enc [] { st := st } hdrOff isLazy).2.1.filesz ≠ 0 →
+        (segLoad c enc [] { st := st } hdrOff isLazy).2.1.offset.toNat +
+          (segLoad c enc [] { st := st } hdrOff isLazy).2.1.filesz.toNat ≤ k) := by
+  intro d hd
+  have hinv := C01.segLoad_inv c enc [] st hdrOff isLazy
+  rw [hs] at hinv
+  obtain ⟨h1, -, h3⟩ := LoadedSeg.prefix_exact hinv hd
+  exact ⟨h1, h3⟩
+
+/-! ### the whole load of a prefix -/
+
+/-- memory safety of loading a prefix: C01 instantiated -/
+theorem prefix_load_safe (o : Obj) (img : Bytes) (k : Nat) (kind : StreamKind) (isLazy : Bool) :
+    ∃ r, load o { data := img.take k, kind := kind } isLazy = .ok r :=
+  C01.load_total o (img.take k) kind isLazy
+
+/-- **exposes_only_file_bytes**: whatever a load of the prefix (and any later interleaving of data
+    requests, see `C01.getData_inv`) exposes as section or segment data is, byte for byte, what the
+    COMPLETE image holds in that range, and a non-empty range lies inside the prefix: no section
+    or segment ever exposes bytes that are not in the file. -/
+theorem exposes_only_file_bytes (o : Obj) (img : Bytes) (k : Nat) (kind : StreamKind) (isLazy : Bool)
+    (r : LoadRes) (htr : o.trans = []) (h : load o { data := img.take k, kind := kind } isLazy = .ok r) :
+    (∀ b ∈ r.obj.secs, ∀ d, b.data = some d →
+      d.take b.size.toNat = slice img b.offset.toNat b.size.toNat ∧
+      d.take b.size.toNat = slice (img.take k) b.offset.toNat b.size.toNat ∧
+      (b.size ≠ 0 → b.offset.toNat + b.size.toNat ≤ k)) ∧
+    (∀ g ∈ r.obj.segs, ∀ d, g.data = some d →
+      d.take g.filesz.toNat = slice img g.offset.toNat g.filesz.toNat ∧
+      d.take g.filesz.toNat = slice (img.take k) g.offset.toNat g.filesz.toNat ∧
+      (g.filesz ≠ 0 → g.offset.toNat + g.filesz.toNat ≤ k)) := by
+  obtain ⟨h1, h2, -⟩ := C01.load_inv o (img.take k) kind isLazy r h
+  rw [htr] at h1 h2
+  constructor
+  · intro b hb d hd
+    obtain ⟨e1, e2, e3⟩ := LoadedSec.prefix_exact (h1 b hb) hd
+    have e4 := ((h1 b hb).bytes d hd).1
+    simp only [dataOff_nil] at e4
+    exact ⟨by rw [e1]; exact List.take_left' e2, e4, e3⟩
+  · intro g hg d hd
+    obtain ⟨e1, e2, e3⟩ := LoadedSeg.prefix_exact (h2 g hg) hd
+    have e4 := ((h2 g hg).bytes d hd).1
+    simp only [dataOff_nil] at e4
+    exact ⟨by rw [e1]; exact List.take_left' e2, e4, e3⟩
+
+/-- the same after any interleaving of data requests / frees on the loaded prefix -/
+theorem exposes_only_file_bytes_requests (o : Obj) (img : Bytes) (k : Nat) (qs : List C01.Req)
+    (htr : o.trans = []) (h : C01.ObjInv o (img.take k)) :
+    ∀ b ∈ (C01.requests o qs).1.secs, ∀ d, b.data = some d →
+      d.take b.size.toNat = slice img b.offset.toNat b.size.toNat ∧
+      (b.size ≠ 0 → b.offset.toNat + b.size.toNat ≤ k) := by
+  intro b hb d hd
+  have hi := (C01.getData_inv (img.take k) qs o h).1
+  have ht : (C01.requests o qs).1.trans = [] := by
+    clear hb hi
+    induction qs generalizing o with
+    | nil => exact htr
+    | cons q qs ih =>
+      have hq := C01.request_inv o (img.take k) q h
+      exact ih _ (hq.2.1.trans htr) hq.1
+  have hb' := hi.secs b hb
+  rw [ht] at hb'
+  obtain ⟨e1, e2, e3⟩ := LoadedSec.prefix_exact hb' hd
+  exact ⟨by rw [e1]; exact List.take_left' e2, e3⟩
+
 end ElfioVerif.C17
